@@ -17,8 +17,8 @@ IMPORT = [
         (("x",), [(2, ("x",))], [(2, ("y",))]), (("y",), [(2, ("y",))], [(2, ("x",))])]),
     ("instance", [IMP, r"^&gds21::GdsStructRef$"], r"Result<data::Instance,", [
         (("cell",), [(2, ("name",))], []),
-        (("loc", "x"), [(2, ("xy", "x"))], [(2, ("xy", "y"))]),
-        (("loc", "y"), [(2, ("xy", "y"))], [(2, ("xy", "x"))]),
+        (("loc", "x"), [(2, ("xy", "x"))], [(2, ("xy", "y")), (2, ("strans",)), (2, ("name",))]),
+        (("loc", "y"), [(2, ("xy", "y"))], [(2, ("xy", "x")), (2, ("strans",)), (2, ("name",))]),
         (("reflect_vert",), [(2, ("strans", "reflected"))], [(2, ("strans", "abs_angle")), (2, ("strans", "abs_mag"))]),
         (("angle",), [(2, ("strans", "angle"))], [(2, ("strans", "mag"))]),
     ]),
@@ -62,8 +62,8 @@ EXPORT = [
         (("x",), [(2, ("x",))], [(2, ("y",))]), (("y",), [(2, ("y",))], [(2, ("x",))])]),
     ("instance", [EXP, r"^&data::Instance$"], r"Result<gds21::GdsStructRef,", [
         (("name",), [(2, ("cell",))], []),
-        (("xy", "x"), [(2, ("loc", "x"))], [(2, ("loc", "y"))]),
-        (("xy", "y"), [(2, ("loc", "y"))], [(2, ("loc", "x"))]),
+        (("xy", "x"), [(2, ("loc", "x"))], [(2, ("loc", "y")), (2, ("cell",)), (2, ("reflect_vert",)), (2, ("angle",))]),
+        (("xy", "y"), [(2, ("loc", "y"))], [(2, ("loc", "x")), (2, ("cell",)), (2, ("reflect_vert",)), (2, ("angle",))]),
         (("strans", "reflected"), [(2, ("reflect_vert",))], []),
         (("strans", "angle"), [(2, ("angle",))], []),
     ]),
